@@ -34,7 +34,15 @@ Definition obs_ok (t : st) (o : pobs) : bool :=
 Fixpoint preplay (t : st) (l : list (pcall * pobs)) (i : nat) : option nat :=
   match l with
   | [] => None
-  | (c, o) :: r => let t' := pstep t c in if obs_ok t' o then preplay t' r (S i) else Some i
+  | (c, o) :: r =>
+      let t' := pstep t c in
+      if obs_ok t' o then preplay t' r (S i)
+      else
+        (* the publisher flushes on its own every 100 ms: on a loaded machine a flush can fall
+           between the call and the observation; what was observed must then be the state after
+           that flush *)
+        let t'' := flush_all t' in
+        if obs_ok t'' o then preplay t'' r (S i) else Some i
   end.
 
 Inductive pcase := PCase (calls : list (pcall * pobs)).
